@@ -61,7 +61,7 @@ where
         .enumerate()
         .map(|(i, &ext)| ContextBinding {
             var: ident("v", 10 + i),
-            chi: if ext { Chirality::Ext } else { Chirality::Prd },
+            chi: if ext { Chirality::Ext } else if i % 2 == 0 { Chirality::Prd } else { Chirality::Cns },
             ty: if ext { Ty::I64 } else { Ty::Decl(ident("T", 0)) },
         })
         .collect();
